@@ -19,6 +19,16 @@ class VariableBoundEqPropagator(VariableBoundPropagator):
             # Domain of the target shrinks to be equal to eq_e
             eq_v = int(self.eq_e.val())
             range_l = self.target.domain.range_l
+            
+            # A value outside the type of the variable cannot be what the solver compares
+            # with (the expression wraps at its bit width): it carries no usable information
+            var = self.target.var
+            if var.is_signed:
+                if eq_v < -(1 << (var.width-1)) or eq_v > (1 << (var.width-1))-1:
+                    return False
+            elif eq_v < 0 or eq_v > (1 << var.width)-1:
+                return False
+
             if len(range_l) >= 1:
                 if len(range_l) > 1 or not (range_l[0][0] == eq_v and range_l[0][1] == eq_v):
                     should_propagate = True
